@@ -17,6 +17,7 @@ class C17(Prop):
         "NV.C17.model_use_passes_stale_clause",
         "NV.C17.model_save_passes_outdated_clause",
         "NV.C17.model_use_passes_shadow_clause",
+        "NV.C17.model_use_passes_damaged_and_foreign_clauses",
         "NV.C17.never_stale",
         "NV.C17.never_stale_transitive",
         "NV.C17.fresh_binary_used",
